@@ -583,6 +583,12 @@ func (rd *HandlingDataManager) buildHAProxyFlowsEndpointsRequest() *config.HAPro
 			reqCaptureForAll = reqCaptureForAll || (manageAll && requirements.IsReqCaptureRequired)
 		}
 
+		if len(filters[0].GetAllowedMethods()) == 0 {
+			// a filter that lists no methods is matched whatever the method is
+			managedEndpoints = append(managedEndpoints,
+				config.HaproxyAnyMethodEndpointFormat(filters[0].GetURL(), requirements))
+			continue
+		}
 		for _, method := range filters[0].GetSupportedMethods() {
 			managedEndpoints = append(managedEndpoints,
 				config.HaproxyEndpointFormat(method, filters[0].GetURL(), requirements))
